@@ -48,6 +48,7 @@ def key_class(k):
     if k.startswith("HIERARCH "): return "explicit-HIERARCH-prefix"
     if k in ("END", "HISTORY", "CONTINUE"): return "commentary-keyword-" + k
     if k in ("EXTNAME", "HDUNAME"): return "hdu-name-keyword-" + k    # names the primary HDU: read_fits finds the knot images by name (fix 9579c12)
+    if k in ("PCOUNT", "GCOUNT"): return "group-structure-keyword-" + k    # cfitsio takes the primary array for a group structure: the coefficient image cannot be written any more (fix C16-7)
     if not printable(k): return "non-printable-character-in-key"
     return None
 
